@@ -155,4 +155,17 @@ def run(src, tier, seed):
                         'a later fresh value max+k can equal it, and two classes that must differ get the same value in the model' % st.get('ln'))
     if n_ins < 3:
         raise AnalysisBroken('computeNumericValues: expected three recording sites, found %d' % n_ins)
+    # ---- R6 get-assignment answers true/false for every named Boolean term
+    r = res.rule('assignment-vocabulary', 'Interpret::getAssignment prints only `true` or `false` as the value of a named term (SMT-LIB get-assignment has no third value) and lists Boolean terms only', floor=1)
+    ga = fx.func('opensmt::Interpret::getAssignment')
+    words = sorted({x['v'] for x in fwalk(ga) if x.get('k') == 'str' and x['v'] in ('true', 'false', 'unknown', 'undef', 'undefined')})
+    if 'true' not in words or 'false' not in words:
+        raise AnalysisBroken('getAssignment: the value vocabulary was not found')
+    extra = [w for w in words if w not in ('true', 'false')]
+    if extra:
+        gv = fx.func('opensmt::MainSolver::getTermValue')
+        res.bad(r, 'assignment-prints-%s' % extra[0], fx.loc(ga), 'Interpret::getAssignment prints `%s` for a named term whose value MainSolver::getTermValue reports as undefined (terms without a SAT literal: '
+                'simplified away by preprocessing, or not Boolean), instead of its truth value in the model' % extra[0])
+    else:
+        res.ok(r, 'vocabulary %s' % words)
     return res
